@@ -18,12 +18,12 @@ import time
 ROOT = os.path.dirname(os.path.dirname(os.path.abspath(__file__)))
 SPEC = os.path.join(ROOT, "spec")
 HARNESS = os.path.join(ROOT, "harness")
-WORK = os.path.join(ROOT, "work")
+WORK = os.environ.get("VERIF_WORK_DIR") or os.path.join(ROOT, "work")
 # agents developing in parallel may point VERIF_TARGET at a private cargo
 # target directory; registered checks use harness/target
 TARGET = os.environ.get("VERIF_TARGET") or os.path.join(HARNESS, "target")
 REPLAYS = os.path.join(ROOT, "replays")
-EVIDENCE = os.path.join(ROOT, "evidence")
+EVIDENCE = os.environ.get("VERIF_EVIDENCE_DIR") or os.path.join(ROOT, "evidence")
 KNOWN = os.path.join(ROOT, "known_findings.json")
 TLA_CP = "/opt/veriftools/tla/tla2tools.jar:/opt/veriftools/tla/CommunityModules-deps.jar"
 
